@@ -269,6 +269,6 @@ CLAUSES = [
                 "both, or through a dict the caller re-uses; images of "
                 "512..32764 bytes incl. the bundled one; non-trivial = a "
                 "call with options is followed by a call without",
-           examples={"quick": 120, "thorough": 3000},
+           examples={"quick": 600, "thorough": 3000},
            shards={"quick": 8, "thorough": 16}),
 ]
